@@ -40,13 +40,13 @@ func init() {
 // functions listed here, with the reason; and the functions that decide about
 // rows / control flow must contain their TRUE test.
 var relOtherTests = map[string][]string{
-	"lib/query.evalLogic":            {"F|TU"},                 // AND stops on FALSE (OR on TRUE)
-	"lib/query.evalBetween":          {"F|TU", "F|TU"},         // low bound FALSE ⇒ FALSE (single value and row value form)
-	"lib/query.InRowValueList":       {"F|TU"},                 // ALL stops on FALSE (ANY on TRUE)
-	"lib/query.ConvertFieldContents": {"U|TF"},                 // rendering of a ternary cell
-	"lib/query.serializeTernary":     {"F|TU"},                 // rendering of a ternary key
-	"lib/query.ShowObjects":          {"F|TU", "U|TF"},         // rendering of flags
-	"lib/query.(SortValues).Less":    {"U|TF"},                 // UNKNOWN = tie (decided by R-SRT-2)
+	"lib/query.evalLogic":            {"F|TU"},         // AND stops on FALSE (OR on TRUE)
+	"lib/query.evalBetween":          {"F|TU", "F|TU"}, // low bound FALSE ⇒ FALSE (single value and row value form)
+	"lib/query.InRowValueList":       {"F|TU"},         // ALL stops on FALSE (ANY on TRUE)
+	"lib/query.ConvertFieldContents": {"U|TF"},         // rendering of a ternary cell
+	"lib/query.serializeTernary":     {"F|TU"},         // rendering of a ternary key
+	"lib/query.ShowObjects":          {"F|TU", "U|TF"}, // rendering of flags
+	"lib/query.(SortValues).Less":    {"U|TF"},         // UNKNOWN = tie (decided by R-SRT-2)
 }
 
 // functions that decide on rows / control flow: each must test for TRUE
